@@ -335,12 +335,13 @@ Theorem C13_entity_full_refuted : ~ C13_entity_full_statement.
 Proof. exact entity_full_refuted. Qed.
 Print Assumptions C13_entity_full_refuted.
 
-(* a message appended to a publish topic all of whose messages carry names of their own (not an
-   edit of J5sEdit.edit: the source relation keeps the number of messages of a topic): at the
-   converter (acceptTopic) the messages generated before are a prefix of the new ones and the
-   topic's service keeps its name, role and every earlier rpc (name, request message type) - rpc
-   and message names never depend on how many messages the topic has.  Tie: stream
-   topic-message-append of run_cmpa (CAppendPair), incl. the one-message topic `Orders`. *)
+(* a message appended to a publish topic all of whose messages carry names of their own
+   (J5sEdit.EAppendTopicMsg; source relation te_publish_app).  Converter level (acceptTopic): the
+   messages generated before are a prefix of the new ones and the topic's service keeps its name,
+   role and every earlier rpc (name, request message type) - rpc and message names never depend on
+   how many messages the topic has.  Lifted through cv_elements and the link step by
+   J5sExtProofs.accept_topic_ext_app / cv_topic_ext (conclusion: service_ext instead of equality), so
+   the edit is one of the edits of C13_full (any history) - see C13_topic_message_append_in_full. *)
 Theorem C13_publish_topic_append_message_partial :
   forall snake camel screaming ev tn topic_name rl virt l extra ms ss is ms' ss' is',
   all_named l ->
@@ -349,6 +350,35 @@ Theorem C13_publish_topic_append_message_partial :
   prefix_of ms ms' /\ Forall2 service_ext ss ss'.
 Proof. exact publish_append_messages. Qed.
 Print Assumptions C13_publish_topic_append_message_partial.
+
+(* EAppendTopicMsg is an edit of the history theorem: C13_full instantiated with histories made
+   of topic-message appends only (nothing to prove beyond C13_full: the edit type contains it) *)
+Theorem C13_topic_message_append_in_full : forall bd pkg (ms : list (nat * nat * tmsg)),
+  let es := map (fun x => EAppendTopicMsg (fst (fst x)) (snd (fst x)) (snd x)) ms in
+  valid bd = true -> valid (apply_edits bd es) = true ->
+  (exists x, In x bd /\ bfile_pkg x = pkg) ->
+  exists D D', compile bd pkg = Ok D /\ compile (apply_edits bd es) pkg = Ok D' /\ files_ext D D'.
+Proof. intros bd pkg ms. exact (c13_histories _ bd pkg). Qed.
+Print Assumptions C13_topic_message_append_in_full.
+
+(* one step of it at the source: the edit extends the declaration (applies when every message of
+   the publish topic has a name; otherwise the edit changes nothing) *)
+Theorem C13_topic_message_append_extends : forall fi k m el,
+  element_ext el (edit_element (EAppendTopicMsg fi k m) el).
+Proof. intros fi k m el. exact (edit_element_ext (EAppendTopicMsg fi k m) el). Qed.
+Print Assumptions C13_topic_message_append_extends.
+
+(* non-vacuity: `topic Orders publish { message OrderPlaced }` + OrderShipped + OrderPaid + a field
+   of OrderPlaced: rpc OrderPlaced keeps its name and request type, the new rpcs follow *)
+Theorem C13_topic_message_append_example :
+  valid w_orders = true /\ valid (apply_edits w_orders w_orders_edits) = true /\
+  (exists x, In x w_orders /\ bfile_pkg x = b "foo.v1") /\
+  exists D D', compile w_orders (b "foo.v1") = Ok D /\ compile (apply_edits w_orders w_orders_edits) (b "foo.v1") = Ok D' /\
+    files_ext_b D D' = true /\
+    map (fun s => map me_name (ds_methods s)) (flat_map fl_svcs D) = [[b "OrderPlaced"]] /\
+    map (fun s => map me_name (ds_methods s)) (flat_map fl_svcs D') = [[b "OrderPlaced"; b "OrderShipped"; b "OrderPaid"]].
+Proof. exact topic_message_append_example. Qed.
+Print Assumptions C13_topic_message_append_example.
 
 (* non-vacuity: appending a field to a two-field object keeps fields 1 and 2 and adds number 3 *)
 Example C13_example :
